@@ -309,15 +309,18 @@ theorem phase_idle {k : Hash} {e : Entry} {now : Time} {E : Em → Prop} {base :
   | polDel c cost bs hpc => rw [hidle] at hpc; cases hpc
   | done _ h => exact h
 
-/-- **One sweep reclaims a registered expired entry** (sweep run in isolation). -/
-theorem sweep_reclaims {cfg : Cfg} {s s' : State} {k : Hash} {e : Entry} {m : AMap Hash Conf} {chs : List Choice}
+/-- **One sweep reclaims a registered expired entry** (sweep run in isolation).  `b` is the bucket the
+entry is registered in: the bucket of its expiration or a later one it was clamped to. -/
+theorem sweep_reclaims {cfg : Cfg} {s s' : State} {k : Hash} {e : Entry} {b : Int} {m : AMap Hash Conf}
+    {chs : List Choice}
     (hpc : s.app = .tick) (hst : s.store.lookup k = some e) (hz : e.exp ≠ Gen.zeroTime)
-    (hreg : s.em.buckets.lookup (bucketOf e.exp) = some m) (hregk : m.lookup k = some e.conflict)
-    (hlc : -(2:Int)^63 ≤ s.em.lastCleaned) (hnew : s.em.lastCleaned < bucketOf e.exp)
-    (hcov : bucketOf e.exp ≤ cleanupOf s.clock) (hexp : TimeOk e.exp) (hclk : TimeOk s.clock)
+    (hbok : BucketOk b) (hle : bucketOf e.exp ≤ b)
+    (hreg : s.em.buckets.lookup b = some m) (hregk : m.lookup k = some e.conflict)
+    (hlc : LcOk s.em.lastCleaned) (hnew : s.em.lastCleaned < b)
+    (hcov : b ≤ cleanupOf s.clock) (hexp : TimeOk e.exp) (hclk : TimeOk s.clock)
     (hrun : runSweep cfg s chs = some s') (hidle : s'.app = .idle) :
-    Reclaimed k e (fun em => em.buckets.lookup (bucketOf e.exp) = none) s.log s' := by
-  have hlt := bucket_lt hexp hclk hcov
+    Reclaimed k e (fun em => em.buckets.lookup b = none) s.log s' := by
+  have hlt := bucket_lt hexp hclk (Int.le_trans hle hcov)
   cases chs with
   | nil => simp [runSweep] at hrun; subst hrun; rw [hpc] at hidle; cases hidle
   | cons ch rest =>
@@ -325,9 +328,9 @@ theorem sweep_reclaims {cfg : Cfg} {s s' : State} {k : Hash} {e : Entry} {m : AM
     simp only [hpc, applierStep] at hrun
     cases ch <;> simp only [needNone] at hrun <;> try (exact absurd hrun (by simp))
     case none =>
-      have hin := inRange_bucket hlc hnew hcov
+      have hin := (inRange_iff hlc hbok (cleanupOf_ok s.clock)).mpr ⟨hnew, hcov⟩
       obtain ⟨hmem, hnone⟩ := grab_hit hreg hin
-      have hph : Phase k e s.clock (fun em => em.buckets.lookup (bucketOf e.exp) = none) s.log (apTick s) :=
+      have hph : Phase k e s.clock (fun em => em.buckets.lookup b = none) s.log (apTick s) :=
         .pending (s.em.grab s.clock).2 (by simp [apTick, PendingPc]) ⟨m, hmem, hregk⟩ hst rfl hnone
       exact phase_idle (phase_run (fun _ _ _ h => em_del_lookup_none h) hz (Int.le_of_lt hlt) hph hrun) hidle
 
